@@ -3,6 +3,7 @@
 //!   `fit <tag> <deg> <vec x> <vec y>`       PolynomialRegressor::new(deg).fit(x, y) -> `= <vec coef>`
 //!   `predict <tag> <vec coef> <vec x>`      regressor with the given `coef`, `.predict(x)` -> `= <vec>`
 //!   `fitpred <tag> <deg> <vec x> <vec y> <vec xs>`   fit then predict on `xs` -> `= <vec coef> <vec pred>`
+//!   `refit <tag> <deg> <k> (<vec x> <vec y>)*k`   ONE regressor fitted on each data set in turn -> `= <vec coef>`*k
 //!   `vander <tag> <n> <vec x>`              `vandermonde(x, n)` -> `= <vec>`
 use compute::linalg::vandermonde;
 use compute::predict::PolynomialRegressor;
@@ -39,6 +40,24 @@ fn step(_: &mut (), t: &mut Toks) -> R<String> {
             p.fit(&x, &y);
             let pr = p.predict(&xs);
             Ok(ok(format!("{} {}", show_vec(&p.coef), show_vec(&pr))))
+        }
+        "refit" => {
+            let deg = t.usize()?;
+            let k = t.usize()?;
+            let mut sets = Vec::new();
+            for _ in 0..k {
+                let x = t.vec()?;
+                let y = t.vec()?;
+                sets.push((x, y));
+            }
+            t.end()?;
+            let mut p = PolynomialRegressor::new(deg);
+            let mut out: Vec<String> = Vec::new();
+            for (x, y) in sets.iter() {
+                p.fit(x, y);
+                out.push(show_vec(&p.coef));
+            }
+            Ok(ok(out.join(" ")))
         }
         "vander" => {
             let n = t.usize()?;
